@@ -99,6 +99,36 @@ func (e *effects) rootsOf(v ssa.Value, seen map[ssa.Value]bool) []memRoot {
 	case *ssa.TypeAssert:
 		return e.rootsOf(x.X, seen)
 	case *ssa.Extract:
+		// one result of a module function: the roots of that result only (the error beside it is often a package
+		// sentinel, and a slice returned beside it does not point into the sentinel)
+		if cv, ok := x.Tuple.(*ssa.Call); ok {
+			if sc := cv.Common().StaticCallee(); sc != nil && e.w.inModuleOrFB(sc) && len(sc.Blocks) > 0 {
+				var out []memRoot
+				for _, rt := range returnsOf(sc) {
+					if x.Index >= len(rt.Results) {
+						continue
+					}
+					res := rt.Results[x.Index]
+					if !pointerLike(res.Type()) {
+						continue
+					}
+					for _, rr := range e.rootsOf(res, map[ssa.Value]bool{}) {
+						switch rr.kind {
+						case rkParam:
+							if rr.param < len(cv.Common().Args) {
+								out = append(out, e.rootsOf(cv.Common().Args[rr.param], seen)...)
+							}
+						default:
+							out = append(out, rr)
+						}
+					}
+				}
+				if len(out) == 0 {
+					out = []memRoot{{kind: rkFresh}}
+				}
+				return out
+			}
+		}
 		return e.rootsOf(x.Tuple, seen)
 	case *ssa.Phi:
 		var out []memRoot
